@@ -45,6 +45,8 @@ def variants(fn: ast.FunctionDef, tier: str):
     ip = int_params(fn)
     if ip:
         vs.append(("periods+1", {k: v + 1 for k, v in ip if v >= 2}))
+        vs.append(("periods=2", {k: 2 for k, v in ip if v > 2}))
+        vs.append(("periods=1", {k: 1 for k, v in ip if v > 1}))
         if tier == "thorough":
             vs.append(("periods=small-odd", {k: (5 if v >= 5 else v) for k, v in ip if v >= 2}))
             vs.append(("periods+3", {k: v + 3 for k, v in ip if v >= 2}))
@@ -130,7 +132,7 @@ CLAIM = {
             "indicators it calls) on an abstract candle array: candle values are symbols, lengths / periods / weights / indices are "
             "concrete, so wrap-around reads (x[i-1] at i = 0), window offsets, shifts, rolls, convolutions and whole-array reductions "
             "are tracked exactly; branches on candle values execute both sides and join (implicit flows). Element i of a returned "
-            "series must not depend on a candle j > i. Run for default parameters and for shifted periods (odd/even windows). "
+            "series must not depend on a candle j > i. Run for default parameters, shifted periods (odd/even windows) and the smallest periods (1 and 2). "
             "Indicators using constructs outside the interpreter's table are listed as undecided, never as violations.",
     "note": "Trusted: the numpy model (frozen table of ~150 functions); finite candle values; may-dependence (findings on the unchanged tree were confirmed dynamically before being listed as known findings). One input length per run (60 / 130 candles).",
 }
